@@ -43,3 +43,9 @@ pub assume_specification [i64::saturating_add] (x: i64, y: i64) -> (r: i64)
     ensures
         r as int == (if (x as int) + (y as int) > (i64::MAX as int) { i64::MAX as int } else if (x as int) + (y as int) < (i64::MIN as int) { i64::MIN as int } else { (x as int) + (y as int) }),
 ;
+
+/// std's `String` hashes and compares consistently (Hash/Eq agree), so it is a valid hash-table key
+pub broadcast proof fn axiom_string_obeys_hash_table_key_model()
+    ensures #[trigger] vstd::std_specs::hash::obeys_key_model::<String>()
+{ admit(); }
+//@broadcast axiom_string_obeys_hash_table_key_model
